@@ -35,7 +35,11 @@ func (f *Fam) genInit(r *rand.Rand) string {
 		pick(r, 50000000000000000, 50000000000000000, 500000000000000000, 1000000000000000000, 0, 1),
 		pick(r, 10000000000000000, 100000000000000000, 1000000000000, 0, 1000000000000000000),
 		pick(r, 0, 1000, 10000, 10000))
-	fmt.Fprintf(&sb, " daoo=%s daot=%d aclo=%s", hx(Keys[r.Intn(3)].Addr), pick(r, 0, 1000, 50000000), hx(Keys[r.Intn(3)].Addr))
+	daoOwner := hx(Keys[r.Intn(3)].Addr)
+	if r.Intn(6) == 0 {
+		daoOwner = "" // the default: a DAO without an owner
+	}
+	fmt.Fprintf(&sb, " daoo=%s daot=%d aclo=%s", daoOwner, pick(r, 0, 1000, 50000000), hx(Keys[r.Intn(3)].Addr))
 	// every third chain leaves the last two plain keys without a genesis account: their accounts come into being with
 	// the first coins they receive and never carry a public key (such a signer must bring its key with the transaction)
 	nStored := NKeys
@@ -353,6 +357,13 @@ func (f *Fam) genTx1(r *rand.Rand, s *Snapshot) string {
 		who := acl
 		if x >= 85 && x < 98 {
 			who = dao
+			if dao == "" { // an ownerless DAO: the one who may name its owner tries to act as the owner
+				var cur govTypes.ACL
+				govTypes.ModuleCdc.UnmarshalJSON([]byte(s.Params["gov/acl"]), &cur)
+				if o := cur.GetOwner("gov/daoOwner"); o != nil {
+					who = hx(o)
+				}
+			}
 		}
 		if i, ok := keyByAddr[who]; ok {
 			ki, addr, signer = i, who, i
@@ -443,6 +454,9 @@ func (f *Fam) genTx1(r *rand.Rand, s *Snapshot) string {
 			val = fmt.Sprintf(`"%d"`, pick(r, 10, 256))
 		case "gov/daoOwner":
 			val = fmt.Sprintf(`"%s"`, other)
+			if r.Intn(4) == 0 {
+				val = `""` // nobody owns the DAO any more
+			}
 		case "gov/acl":
 			// hand one key over to another owner, or drop it: the full new list goes to both sides as JSON
 			names := AllParamNames()
